@@ -522,7 +522,21 @@ func c10LargeBurst(c *caseCtx) {
 		for i := 0; i < 2*G; i++ {
 			m := []string{"weightedSum", "owa", "choquetIntegral", "majorityHeuristic"}[i%4]
 			n := 64 + c.rng.Intn(97)
-			gs = append(gs, genRequest(c.rng, genOpts{method: m, minAlt: n, maxAlt: n, minCrit: 2, maxCrit: 4, allCons: 1, nBiases: c.rng.Intn(2), allFire: true}))
+			g := genRequest(c.rng, genOpts{method: m, minAlt: n, maxAlt: n, minCrit: 2, maxCrit: 4, allCons: 1, nBiases: c.rng.Intn(2), allFire: true})
+			if i%8 == 1 || i%8 == 2 || i%8 == 7 {
+				// a large request that is refused while it is being evaluated (one alternative far down the list carries a
+				// value for a criterion nobody declared, or lacks one): the refusal stays an answer, next to the others
+				alts := g.M["knownAlternatives"].([]interface{})
+				cv := alts[n/2+c.rng.Intn(n/2)].(M)["criteria"].(M)
+				if i%8 != 7 {
+					cv["zz_undeclared"] = 1.5 // owa, choquet: one value too many is noticed when that alternative is evaluated
+				} else {
+					delete(cv, g.crits[len(g.crits)-1].id)
+				}
+				g.invalid = true
+				c.count("large_refused_requests", 1)
+			}
+			gs = append(gs, g)
 		}
 	default:
 		// Choquet with 13 criteria (8191 capacities): refused ones (a capacity is missing) next to complete ones
